@@ -170,6 +170,13 @@ func buildProposal(w *World, a propAbs, h, i, s *Party, parentID channel.ID, oth
 		fa[0][0] = new(big.Int).Add(fa[0][0], big.NewInt(1))
 		fa[0][1] = new(big.Int).Sub(fa[0][1], big.NewInt(1))
 	}
+	if a.FA == "small" {
+		for x := range fa {
+			for y := range fa[x] {
+				fa[x][y] = big.NewInt(1)
+			}
+		}
+	}
 	base := client.BaseChannelProposal{ChallengeDuration: uint64(a.CD), App: channel.NoApp(), InitData: channel.NoData(), InitBals: al, FundingAgreement: fa}
 	base.ProposalID[0], base.ProposalID[1] = 7, byte(len(a.Kind))
 	base.NonceShare[0] = 1
